@@ -153,7 +153,7 @@ func firstStop(s string) int {
 }
 
 func c48(r *vkit.Run) {
-	r.SetRule("a full in-process BFE with 4 harness filters at each of 6 request-level callback points; each request carries a verdict script; ALL verdict vectors of length 1-4 over the verdicts each point handles (request points: GoOn/Finish/Redirect/Response/Close, Forward and RequestFinish: GoOn/Finish, ReadResponse: GoOn/Finish/Redirect) are enumerated one point at a time (GET), plus seeded multi-point scripts and POST/HEAD variants; oracle = per-point call log must be 0..k in order (k = first non-GoOn) + client bytes + backend arrivals + liveness probe on the same connection. Complete-stream family (HTTP/1.1): every verdict letter GoOn/Finish/Redirect/Response/Close, consulted by the framework at that point or not, as first and as last filter at each of the 6 request-level points x backend body {empty, small, 192 KiB, chunked} x {GET, POST, HEAD}, a request-phase Response verdict followed by Redirect/Finish at HandleReadResponse/HandleRequestFinish, seeded multi-point scripts; connection-level points HandleAccept/HandleHandshake/HandleFinish scripted by the client's source address (plain and TLS http/1.1), vectors of length 1-2 and after GoOns; the probe is pipelined behind the request in one write and asks for close, the client reads to the end of the connection and a strict response parser must find exactly <the response the verdict demands (redirect: 302, Location, the short note for GET and no body otherwise; response: the filter's status/header/body; finish: one complete reply; close: no byte)> then nothing or the probe's own response, then the end; verdicts the framework does not consult at a point are judged for order/stop only; a connection reset before one complete response (pipelined bytes unread at the server) is counted as skipped. Non-trivial = script has a non-GoOn verdict; distinct = script")
+	r.SetRule("a full in-process BFE with 4 harness filters at each of 6 request-level callback points; each request carries a verdict script; ALL verdict vectors of length 1-4 over the verdicts each point handles (request points: GoOn/Finish/Redirect/Response/Close, Forward and RequestFinish: GoOn/Finish, ReadResponse: GoOn/Finish/Redirect) are enumerated one point at a time (GET), plus seeded multi-point scripts and POST/HEAD variants; oracle = per-point call log must be 0..k in order (k = first non-GoOn) + client bytes + backend arrivals + liveness probe on the same connection. Complete-stream family (HTTP/1.1): every verdict letter GoOn/Finish/Redirect/Response/Close, consulted by the framework at that point or not, as first and as last filter at each of the 6 request-level points x backend body {empty, small, 192 KiB, chunked} x {GET, POST, HEAD}, a request-phase Response verdict followed by Redirect/Finish at HandleReadResponse/HandleRequestFinish, seeded multi-point scripts; connection-level points HandleAccept/HandleHandshake/HandleFinish scripted by the client's source address (plain and TLS http/1.1), vectors of length 1-2 and after GoOns; the probe is pipelined behind the request in one write and asks for close, the client reads to the end of the connection and a strict response parser must find exactly <the response the verdict demands (redirect: 302, Location, the short note for GET and no body otherwise; response: the filter's status/header/body; finish: one complete reply; close: no byte)> then nothing or the probe's own response, then the end; verdicts the framework does not consult at a point are judged for order/stop only; a connection reset before one complete response (pipelined bytes unread at the server) is counted as skipped. Request-finish family (c48finish.go, HTTP/1.1): two-request keep-alive connections; request 1 ends through each terminal path {Redirect at each request-phase point and at HandleReadResponse, Response verdict at each request-phase point, Finish at each earlier point, Close at each request-phase point, proxied GET/POST with four body shapes, HEAD, backend 304, backend drops the connection -> internal 500, unknown Host -> internal 500} x GET/POST/HEAD where meaningful x verdict vector at HandleRequestFinish {all GoOn, F, GF, GGGF, C, GGC, R, P; seeded vectors of length 1-4 and chain positions} x request 2 {pipelined in the same write, sent after reply 1 was read}; asserted: HandleRequestFinish is passed by every request on every terminal path - its filters are called exactly 0..k in order, once, for request 1 and for an answered request 2 (also applied to every HTTP/1 case of the other families whose end was observed); a Finish verdict there ends the connection after reply 1 (request 2 unanswered, not one more byte); Close/Redirect/Response are not consulted by the framework at HandleRequestFinish (the reply is already out) and are judged for order/stop only; that GoOn leaves the connection alive on the keep-alive paths is measured as the control and required to have been seen on every path, never a verdict. Non-trivial = script has a non-GoOn verdict; distinct = script")
 	log := newFilterLog()
 	bs := e2e.NewBackendSet()
 	defer bs.Close()
@@ -186,6 +186,14 @@ func c48(r *vkit.Run) {
 		if err := r.LoadReplay(&ws); err == nil && (ws.Case.Kind == "stream" || ws.Case.Kind == "conn") {
 			r.SetMinDistinct(0)
 			c48Stream(r, srv, log, cs, bs, &ws.Case)
+			return
+		}
+		var wf struct {
+			Case c48FCase `json:"case"`
+		}
+		if err := r.LoadReplay(&wf); err == nil && wf.Case.Kind == "finish2" {
+			r.SetMinDistinct(0)
+			c48Finish2(r, srv, log, &wf.Case)
 			return
 		}
 		var w struct {
@@ -279,6 +287,15 @@ func c48(r *vkit.Run) {
 				nontrivial = true
 			}
 			calls := per[p]
+			if len(calls) == 0 && p == bfe_module.HandleRequestFinish && c.Frontend == "" && !o.Timeout && (o.Closed || o.ProbeResp) {
+				// the request-finish point is passed by every request, whatever produced its reply (c48finish.go). HTTP/1
+				// only: there the end of the connection or the next reply proves that the request is over
+				r.Violation("order:HandleRequestFinish:chain-never-ran", fmt.Sprintf("no filter was called at HandleRequestFinish for a finished request (script %q)", c.Script), w)
+				if k >= 0 {
+					effs = append(effs, eff{p, k, s[k]})
+				}
+				continue
+			}
 			if len(calls) == 0 {
 				continue
 			}
@@ -386,6 +403,7 @@ func c48(r *vkit.Run) {
 	}
 	if r.Replay == "" {
 		c48Stream(r, srv, log, cs, bs, nil)
+		c48Finish2(r, srv, log, nil)
 	}
 	for k, v := range e2e_panics(srv) {
 		if v != 0 {
